@@ -100,11 +100,11 @@ def showGR (r : GR) : String := s!"{r.id}:{r.ctx}:{r.name}:{showVu r.vu}:{nats r
 def plain (g : Mon) (op : Op) : Except String Mon :=
   match op with
   | .add c n vu sg ps =>
-    if g.rules.length ≥ 15 then .error "limit.rules"
+    if g.rules.length ≥ 15 then .error "limit.add_context_rule.rules"
     else if !nodupB sg then .error "dup_signer"
     else if past g vu then .error "past_valid_until"
-    else if sg.length > 15 then .error "limit.signers"
-    else if ps.length > 5 then .error "limit.policies"
+    else if sg.length > 15 then .error "limit.add_context_rule.signers"
+    else if ps.length > 5 then .error "limit.add_context_rule.policies"
     else if sg = [] ∧ ps = [] then .error "empty"
     else if g.rules.any (sameFp c sg ps) then .error "dup_fingerprint"
     else if !ps.all installOk then .error "install_refused"
@@ -120,7 +120,7 @@ def plain (g : Mon) (op : Op) : Except String Mon :=
     | none => .error "absent"
     | some r =>
       if r.sg.contains s then .error "dup"
-      else if r.sg.length + 1 > 15 then .error "limit.signers"
+      else if r.sg.length + 1 > 15 then .error "limit.add_signer.signers"
       else if g.rules.any (sameFp r.ctx (r.sg ++ [s]) r.ps) then .error "dup_fingerprint"
       else .ok (put g { r with sg := r.sg ++ [s] })
   | .removeSigner id s => match find g id with
@@ -135,7 +135,7 @@ def plain (g : Mon) (op : Op) : Except String Mon :=
     | some r =>
       if r.ps.contains p then .error "dup"
       else if !installOk p then .error "install_refused"
-      else if r.ps.length + 1 > 5 then .error "limit.policies"
+      else if r.ps.length + 1 > 5 then .error "limit.add_policy.policies"
       else if g.rules.any (sameFp r.ctx r.sg (r.ps ++ [p])) then .error "dup_fingerprint"
       else .ok (put g { r with ps := r.ps ++ [p] })
   | .removePolicy id p => match find g id with
@@ -158,17 +158,18 @@ def check (g : Mon) (opl obs : String) : Mon × Option String :=
       | .error _, false => (g, none)
       | .ok _, false => (g, some (
           let near := match op with
-            | .add _ _ _ sg ps => if g.rules.length = 14 then "limit.rules" else if sg.length = 15 then "limit.signers"
-                                  else if ps.length = 5 then "limit.policies" else "valid"
+            | .add _ _ _ sg ps => if g.rules.length = 14 then "limit.add_context_rule.rules"
+                                  else if sg.length = 15 then "limit.add_context_rule.signers"
+                                  else if ps.length = 5 then "limit.add_context_rule.policies" else "valid"
             | .addSigner id _ => (match find g id with
-                | some r => if r.sg.length = 14 then "limit.signers" else "valid"
+                | some r => if r.sg.length = 14 then "limit.add_signer.signers" else "valid"
                 | none => "valid")
             | .addPolicy id _ => (match find g id with
-                | some r => if r.ps.length = 4 then "limit.policies" else "valid"
+                | some r => if r.ps.length = 4 then "limit.add_policy.policies" else "valid"
                 | none => "valid")
             | _ => "valid"
-          s!"site=rules.{near}_refused the account refused an operation the plain rule set (with its documented limits) accepts"))
-      | .error why, true => (g, some s!"site=rules.{why}_accepted the account accepted an operation the plain rule set refuses ({why})")
+          refusedSite "rules" near))
+      | .error why, true => (g, some (acceptedSite "rules" why))
     -- ids are handed out once: the id returned by an accepted `add` is above every earlier one
     let ret := (kvS ws "ret").toNat?
     let (g2, idFail) : Mon × Option String := match op, ok with
